@@ -24,6 +24,17 @@ int main(int argc, char** argv) {
       TimePeriod same((int32_t) s); ok = ok && p.compareTo(same) == 0 && p == same;
       if (!ok) { if (bad < 20) printf("{\"s\":%ld,\"fields\":[%d,%d,%d,%d],\"toSeconds\":%ld}\n", s, p.sign(), p.hour(), p.minute(), p.second(), (long) p.toSeconds()); bad++; }
     }
+    // periods built from components with either sign (incl. a negative zero) are ordered by signed length too
+    static const int comps[][3] = {{0, 0, 0}, {0, 0, 1}, {0, 1, 0}, {1, 0, 0}, {23, 59, 59}, {255, 59, 59}};
+    for (auto& a : comps) for (int sa = -1; sa <= 1; sa += 2) for (auto& b : comps) for (int sb = -1; sb <= 1; sb += 2) {
+      TimePeriod p((uint8_t) a[0], (uint8_t) a[1], (uint8_t) a[2], (int8_t) sa), q((uint8_t) b[0], (uint8_t) b[1], (uint8_t) b[2], (int8_t) sb);
+      long ps = p.toSeconds(), qs = q.toSeconds();
+      n++;
+      int want = ps < qs ? -1 : ps == qs ? 0 : 1;
+      TimePeriod np = p; time_period_mutation::negate(np);
+      bool ok = p.compareTo(q) == want && q.compareTo(p) == -want && np.toSeconds() == -ps && np.compareTo(TimePeriod((int32_t) -ps)) == 0;
+      if (!ok) { if (bad < 20) printf("{\"s\":%ld,\"fields\":[%d,%d,%d,%d],\"toSeconds\":%ld,\"other\":%ld,\"compareTo\":%d}\n", ps, p.sign(), p.hour(), p.minute(), p.second(), ps, qs, (int) p.compareTo(q)); bad++; }
+    }
     printf("{\"done\":1,\"n\":%ld,\"bad\":%ld}\n", n, bad);
     return 0;
   }
